@@ -29,6 +29,21 @@ func (r *e2eChanReader) Read(p []byte) (int, error) {
 	return copy(p, b), nil
 }
 
+// e2eEOFReader closes eof when the wrapped reader reports its first error (end of stream).
+type e2eEOFReader struct {
+	r    io.Reader
+	eof  chan struct{}
+	once sync.Once
+}
+
+func (r *e2eEOFReader) Read(p []byte) (int, error) {
+	n, err := r.r.Read(p)
+	if err != nil {
+		r.once.Do(func() { close(r.eof) })
+	}
+	return n, err
+}
+
 type e2eFuncWriter struct {
 	fn func(b []byte)
 }
